@@ -355,7 +355,7 @@ func ruleC19(w *World, r *Report) {
 		if ret == nil || len(ret.Results) != 1 {
 			return
 		}
-		v := resolveAlongPath(p, ret.Results[0])
+		v := resolveAlongPath(p, res(ret, 0))
 		construct := "unit " + unit
 		pos := w.Pos(ret.Pos())
 		if _, isConst := constInt(v); isConst {
